@@ -8,8 +8,8 @@ os.makedirs(dst, exist_ok=True)
 for f in ("patch.diff", "demo.c", "run_demo.sh", "NOTES.md"):
     if os.path.exists(os.path.join(src, f)):
         shutil.copy(os.path.join(src, f), os.path.join(dst, f))
-diff = subprocess.run(["git", "-C", "/tmp/seed/%s" % sid, "diff"], capture_output=True, text=True).stdout
-open(os.path.join(dst, "patch.diff"), "w").write(diff)
+diff = subprocess.run(["git", "-C", "/tmp/seed/%s" % sid, "diff"], capture_output=True).stdout       # bytes: some sources use CRLF
+open(os.path.join(dst, "patch.diff"), "wb").write(diff)
 base = subprocess.run(["git", "-C", "/tmp/seed/%s" % sid, "rev-parse", "HEAD"], capture_output=True, text=True).stdout.strip()
 meta = {"breaks_property": prop, "base_commit": base, "needs_to_manifest": needs, "detected_by": detected, "what_was_run": ran,
         "confirmed": {"baseline_with_change": open("/tmp/seed/%s.baseline.txt" % sid).read().strip() if os.path.exists("/tmp/seed/%s.baseline.txt" % sid) else "passed=250 failed=0",
